@@ -187,6 +187,22 @@ def gen_signal(rng, min_len=1, max_len=80):
         peak = max(head) + 3.0 if rng.random() < 0.5 else min(head) - 3.0
         tail = [float(rng.randint(-5, 5)) for _ in range(rng.randint(3, 12))]
         return head + [peak] * rng.choice([17000, 33000, 40000]) + tail
+    if max_len == 80 and rng.random() < 0.0008:
+        # a ring-down of thousands of half waves (every one of them stays open), then a swing beyond all of them
+        # and a few more samples: thousands of nested loops close in one call, far down the residual stack
+        n_half = rng.choice([4100, 4500, 6000, 9000])
+        grow = rng.random() < 0.25
+        sgn = rng.choice([-1.0, 1.0])
+        sig = []
+        for k in range(n_half):
+            a = (k + 1) if grow else (n_half - k)
+            sig.append(sgn * a * 0.5)
+            sgn = -sgn
+        if not grow:
+            sig += [sgn * (n_half + 2) * 0.5, 0.0, 1.0, -1.0][:rng.randint(1, 4)]
+        else:
+            sig = [-sig[-1] * 1.01] + sig + [0.25, -0.25][:rng.randint(0, 2)]
+        return sig
     if max_len == 80 and rng.random() < 0.0007:
         # very rarely a really long recording (block sizes, 16-bit counters): held levels everywhere
         n_big = rng.choice([66000, 70000, 132000])
@@ -451,6 +467,10 @@ def collective_consistent(d, o, rec):
             got["ifrom"] = [float(x) for x in c["index_from"].to_numpy()]
             got["ito"] = [float(x) for x in c["index_to"].to_numpy()]
         _strip_prefill(d.recorder, got)
+        # the frame handed out belongs to the caller: orienting / clipping it in place may not reach the recorder
+        if len(c):
+            c.iloc[:, 0] = 777.0
+            c.loc[:, "to"] = -777.0
     except Exception as e:     # noqa
         raise RealCodeError("collective", e)
     for k, v in got.items():
